@@ -91,12 +91,47 @@ def rule_ambiguity(ck: Check, repo: Repo, folder: Folder) -> None:
                         f" the block is not found again and a second header is stacked on top at the next run", "src/reuse/comment.py")
 
 
+def _leftmost(e: ast.AST) -> str:
+    """Text of the leftmost operand of a concatenation / the first piece of an f-string."""
+    while True:
+        if isinstance(e, ast.BinOp) and isinstance(e.op, ast.Add):
+            e = e.left
+        elif isinstance(e, ast.JoinedStr) and e.values:
+            v = e.values[0]
+            e = v.value if isinstance(v, ast.FormattedValue) else v
+        else:
+            return ast.unparse(e)
+
+
+def _marker_on_every_line(ws: ast.FunctionDef) -> bool:
+    """_create_comment_single: every line of the text (also an empty one) yields an output line that BEGINS with the style's
+    single-line marker.  Recognised shapes: a loop over the lines whose unconditional `result.append(X)` appends a value whose
+    first definition in the loop body starts with cls.SINGLE_LINE, or the same as a comprehension.  Other shapes: exit 2."""
+    loops = [n for n in ast.walk(ws) if isinstance(n, ast.For) and re.search(r"\.split\('\\n'\)|\.splitlines\(", ast.unparse(n.iter))]
+    comps = [n for n in ast.walk(ws) if isinstance(n, (ast.ListComp, ast.GeneratorExp)) and any(re.search(r"\.split\('\\n'\)|\.splitlines\(", ast.unparse(g.iter)) for g in n.generators)]
+    if len(loops) == 1:
+        lp = loops[0]
+        appends = [st for st in lp.body if isinstance(st, ast.Expr) and isinstance(st.value, ast.Call) and ast.unparse(st.value.func).endswith(".append") and st.value.args]
+        if len(appends) != 1:
+            return False          # no unconditional append: some line yields no output line
+        v = appends[0].value.args[0]
+        if isinstance(v, ast.Name):
+            defs = [st for st in lp.body if isinstance(st, ast.Assign) and any(isinstance(t, ast.Name) and t.id == v.id for t in st.targets)]
+            if not defs:
+                raise AnalysisError("_create_comment_single: the appended line is not defined in the loop body (shape not enumerated)")
+            return _leftmost(defs[0].value) == "cls.SINGLE_LINE"
+        return _leftmost(v) == "cls.SINGLE_LINE"
+    if len(comps) == 1 and not loops:
+        return not any(g.ifs for g in comps[0].generators) and _leftmost(comps[0].elt if not isinstance(comps[0].elt, ast.IfExp) else comps[0].elt.body) == "cls.SINGLE_LINE" \
+            and (not isinstance(comps[0].elt, ast.IfExp) or _leftmost(comps[0].elt.orelse) == "cls.SINGLE_LINE")
+    raise AnalysisError("_create_comment_single: how the lines of the comment are produced could not be read (shape not enumerated)")
+
+
 def rule_writer_finder(ck: Check, repo: Repo, folder: Folder) -> None:
     r = ck.rule("R3", "writer and finder of comment blocks agree (every emitted line is recognised as part of the block)")
     styles = c02.style_tables(folder)
     ws = repo.func(f"{CS}._create_comment_single")
-    src = re.sub(r"\s+", " ", ast.unparse(ws))
-    ok = "for line in text.split('\\n'): line_result = cls.SINGLE_LINE if line: line_result += cls.INDENT_AFTER_SINGLE + line result.append(line_result)" in src
+    ok = _marker_on_every_line(ws)
     r.instance("_create_comment_single", {"marker_on_every_line": ok})
     if not ok:
         r.violation(f"{CS}._create_comment_single", "not every emitted line starts with the single-line marker",
@@ -348,11 +383,20 @@ def rule_normal_form(ck: Check, repo: Repo, rid: str = "R9") -> None:
     an = repo.commands().get("annotate")
     pre = [repo.functions[f"reuse.cli.annotate.{n}"] for n in ("test_mandatory_option_required",) if f"reuse.cli.annotate.{n}" in repo.functions]
     refusals = []
+    from ..rules import deep_text as _deep
+
+    def _dtx(f_, e) -> str:
+        """test text with the single-assignment locals it mentions resolved (`stripped = [v.strip() …]; if not all(stripped)`)"""
+        try:
+            return _deep(f_, e)
+        except Exception:  # noqa: BLE001
+            return ast.unparse(e)
+
     for f in [an] + pre + [fn]:
         if f is None:
             continue
         for node in ast.walk(f):
-            if isinstance(node, ast.If) and ".strip()" in ast.unparse(node.test) and re.search(r"\bnot\b|== ''|== \"\"", ast.unparse(node.test)) \
+            if isinstance(node, ast.If) and ".strip()" in _dtx(f, node.test) and re.search(r"\bnot\b|== ''|== \"\"", ast.unparse(node.test)) \
                     and any(isinstance(x, ast.Raise) and re.search(r"UsageError|BadParameter", ast.unparse(x)) for x in ast.walk(node)):
                 refusals.append(ast.unparse(node.test)[:80])
     # ... and a text with a LINE BREAK is written as one tag line plus a stray comment line: it is read back cut, and the
